@@ -297,6 +297,13 @@ class CompilerProcess:
         rec["steps"] = steps
         rec["budget"] = budget
         rec["outcome"] = "ok" if exc is None else self.classify(exc)
+        if fs.crashed and not rec["outcome"].startswith("crash:"):
+            # the injected kill is final: what handlers made of it afterwards (a catch-all that
+            # exits with a message, a clean-up that raised something else) is fiction no real
+            # process could produce -- nothing of it reached the disk (SimFS refuses every call
+            # after the crash) and nothing of it is judged
+            rec["after_crash"] = rec["outcome"]
+            rec["outcome"] = "crash:" + ("power" if fs.crash_power else "kill")
         if exc is not None:
             msg = _ADDR.sub("0x?", str(exc))[:300]
             rec["exc"] = type(exc).__name__
